@@ -307,7 +307,7 @@ def check_role4(rep, prog, sf):
     g = mir.cfg(sf)
     demob = [bi for bi, t, cc in mir.iter_calls(sf, name="demobilize")]
     newf = [bi for bi, t, cc in mir.iter_calls(sf, name="new") if cc.get("trait") == "statime::filters::Filter"]
-    swaps = [(bi, t) for bi, t, cc in mir.iter_calls(sf, name="swap")]
+    swaps = [(bi, t) for bi, t, cc in mir.iter_calls(sf) if cc["name"] in ("swap", "replace") and "mem" in cc["path"]]
     construct = "filter replaced+demobilized"
     if not demob or not newf:
         rep.violation("ROLE-4", sf.key, construct, "set_forced_port_state no longer creates a fresh filter and "
@@ -318,10 +318,12 @@ def check_role4(rep, prog, sf):
     pv = c.prov
     state_swap = None
     filter_swap = None
+    state_is_replace = False
     for (bi, t) in swaps:
         names = [df.named_fields(pv.op_tree(a)) for a in t["args"]]
         if any(n and n[-1] == "port_state" for n in names):
             state_swap = bi
+            state_is_replace = mir.callee_of(t)["name"] == "replace"
         if any(n and n[-1] == "filter" for n in names):
             filter_swap = bi
     if filter_swap is None:
@@ -345,15 +347,23 @@ def check_role4(rep, prog, sf):
         after_swap = state_swap is not None and g.dominates(state_swap, e)
         self_set = fsm.port_state_set(lits)
         arg_set = set(fsm.STATES)
+        repl_set = set(fsm.STATES)       # the value mem::replace(&mut self.port_state, _) returned = the OLD state
         for l in lits:
             if l[0] == "variant" and l[3] == "PortState":
                 t = df.strip(l[1])
                 if t[0] == "path" and t[1] == ("arg", 2) and not df.named_fields(t):
                     arg_set &= set(l[2])
+                if t[0] == "call" and t[2] == "replace" and t[3] and (df.named_fields(t[3][0]) or ("",))[-1] == "port_state":
+                    repl_set &= set(l[2])
         if state_swap is None:
-            bad.append("no mem::swap of port_state found")
+            bad.append("no mem::swap / mem::replace of port_state found")
             continue
-        old, new = (arg_set, self_set) if after_swap else (self_set, arg_set)
+        if state_is_replace:
+            # replace: the argument is the new state (and so is self.port_state afterwards); the result is the old one
+            old = repl_set if after_swap else self_set
+            new = (arg_set & self_set) if after_swap else arg_set
+        else:
+            old, new = (arg_set, self_set) if after_swap else (self_set, arg_set)
         if old & {"Slave", "Faulty"}:
             bad.append("skipped although the old state may be %s" % sorted(old & {"Slave", "Faulty"}))
         if "Faulty" in new:
